@@ -303,10 +303,10 @@ def segments(t):
     raise AnalysisError(f"written text outside the idiom table: {show(t)[:120]}")
 
 
-def check_header(run, it, fq, writes, frame_loop, first_row_seq, want_token=True):
-    """exactly one header line per frame, before the rows, containing the token `neighborlist`."""
+def header_verdict(it, writes, frame_loop, first_row_seq):
+    """(verdict, text, first write): does the frame loop write exactly one literal line before the rows?  The text is
+    reconstructed from every write() to the handle; any other way of emitting text makes a negative verdict undecidable."""
     handle = writes[0].data["call"][2][0] if writes else None
-    # any other way text could reach the file makes a negative verdict undecidable
     other = [e for e in it.events if e.kind == "call" and e.data["call"][1] != ".write" and
              (handle in e.data["call"][2] or any(v == handle for _, v in e.data["call"][3])) and
              e.data["call"][1] not in (".close", ".flush")]
@@ -333,13 +333,18 @@ def check_header(run, it, fq, writes, frame_loop, first_row_seq, want_token=True
         ok = False
     else:
         ok = None
+    return ok, text, (parts[0][0] if parts else None), nlines
+
+
+def check_header(run, it, fq, writes, frame_loop, first_row_seq, want_token=True):
+    """exactly one header line per frame, before the rows, containing the token `neighborlist`."""
+    ok, text, w, nlines = header_verdict(it, writes, frame_loop, first_row_seq)
     run.ob("R-PROTO", fq, "header:per-frame", ok, "one header line is written per frame, inside the frame loop, before the particle rows",
            f"{nlines} literal header lines written in the frame loop before the rows", witness=None if ok else
            ("multi-frame file: the reader consumes one header per frame; frames after the first are shifted by one line" if not nlines else
             "two header lines per frame: the reader parses the second as particle 1"), loc=it.fi.loc(frame_loop.node), sound=True)
     if not ok:
         return
-    w = parts[0][0]
     run.ob("R-PROTO", fq, "header:line", True, "the header is exactly one line", repr(text), loc=loc_of(it, w))
     has = "neighborlist" in text.split()
     run.ob("R-PROTO", fq, "header:token", has == want_token, "the header carries the token `neighborlist` (the reader subtracts 1 from ids only then)",
